@@ -3,8 +3,8 @@ CONSTANTS
   MaxC = 2
   MaxLen = 3
   ModelKinds = {"str", "int", "cprim_str", "list_str", "list_cprim"}
-  FormOps = {"<", "<=", "==", ">", ">=", "!="}
-  Sides = {"L", "R"}
+  FormOps = {"<=", "==", ">=", "!="}
+  Sides = {"L"}
 INVARIANT TypeOK
 INVARIANT Design_ValidAccepted
 INVARIANT Design_ViolationRejected
